@@ -45,6 +45,39 @@ def st_ops(dw, window, n_max, full_sel_only=False, min_ops=5):
     return st.lists(op, min_size=min_ops, max_size=n_max)
 
 
+def _burst_ops(draw, dw, W):
+    """B4 burst histories: incrementing, wrapping (4/8/16), constant and classic cycles with wait states between beats"""
+    ops = []
+    for _ in range(draw(st.integers(2, 8))):
+        we = draw(st.integers(0, 1))
+        btype = draw(st.sampled_from(["incr", "incr", "wrap4", "wrap8", "wrap16", "const", "classic"]))
+        beats = draw(st.integers(2, 8)) if btype != "classic" else 1
+        if btype.startswith("wrap"):
+            # a wrap burst longer than its wrap length is excluded by construction (known finding
+            # sram-wrap-overrun, replayed from its witness file)
+            beats = min(beats, int(btype[4:]))
+        start = draw(st.integers(0, W - 1))
+        waits = draw(st.sampled_from([0, 0, 1]))
+        for b in range(beats):
+            if btype == "incr":
+                adr, cti, bte = (start + b) % W, 2, 0
+            elif btype.startswith("wrap"):
+                n = int(btype[4:])
+                adr, cti, bte = (start & ~(n - 1)) | ((start + b) & (n - 1)), 2, {4: 1, 8: 2, 16: 3}[n]
+            elif btype == "const":
+                adr, cti, bte = start, 1, 0
+            else:
+                adr, cti, bte = start, 0, 0
+            last = b == beats - 1
+            if last and btype != "classic":
+                cti = 7
+            ops.append({"we": we, "adr": adr, "dat": draw(st.integers(0, (1 << dw) - 1)),
+                        "sel": draw(st.sampled_from([(1 << (dw // 8)) - 1, (1 << (dw // 8)) - 1, 0x5, 0x3, 0x8])) & ((1 << (dw // 8)) - 1),
+                        "gap": (draw(st.sampled_from([0, 1, 3])) if b == 0 else (waits if draw(st.integers(0, 3)) == 0 else 0)),
+                        "hold": not last, "cti": cti, "bte": bte, "btype": btype})
+    return ops
+
+
 def st_case(tier):
     nmax = 30 if tier == "quick" else 60
 
@@ -76,7 +109,9 @@ def st_case(tier):
             if dw_s > dw_m and cachesize < 2 * dw_s // dw_m:
                 cachesize = 2 * dw_s // dw_m
             c.update({"dw_m": dw_m, "dw_s": dw_s, "cachesize": cachesize, "reverse": draw(st.booleans()),
-                      "window": cachesize * draw(st.sampled_from([2, 4]))})
+                      "window": cachesize * draw(st.sampled_from([2, 4])),
+                      # address widths that just cover the window (every tag bit is exercised) or wide ones
+                      "tight": draw(st.booleans())})
             c["ops"] = draw(st_ops(dw_m, c["window"], nmax))
             # collide on few sets: fold most addresses onto two lines
             if draw(st.booleans()):
@@ -93,10 +128,16 @@ def st_case(tier):
             ops = draw(st_ops(32, 64, nmax))
             sl = c["size_log2"]
             for o in ops:
+                edges = []
+                for so, sz, _ in c["regions"]:
+                    # the words around both ends of every source window (first word behind it: low address 0)
+                    edges += [(so + sz) & 0xffffffff, (so + sz - 0x100) & 0xffffffff, so, (so - 0x100) & 0xffffffff]
                 hi = draw(st.sampled_from([0, 0, 0x1000, 0x10000, 0x12340000, 0x40000000, 0x12341000,
                                            (1 << (sl - 1)) & 0xffffffff, ((1 << sl) - 0x100) & 0xffffffff, (1 << sl) & 0xffffffff,
-                                           ((1 << (sl - 1)) + 0x1000) & 0xffffffff]))
+                                           ((1 << (sl - 1)) + 0x1000) & 0xffffffff] + edges + edges))
                 o["adr_hi"] = hi
+                if hi in edges and draw(st.booleans()):
+                    o["adr"] = draw(st.sampled_from([0, 0, 1, 63]))
             c["ops"] = ops
         elif kind == "wb2csr":
             c.update({"dw_m": draw(st.sampled_from([8, 32])), "register": draw(st.booleans()),
@@ -111,37 +152,9 @@ def st_case(tier):
         elif kind == "sram_burst":
             dw = draw(st.sampled_from([32, 64]))
             c.update({"dw_m": dw, "dw_s": dw, "window": 32})
-            ops = []
-            for _ in range(draw(st.integers(2, 8))):
-                we = draw(st.integers(0, 1))
-                btype = draw(st.sampled_from(["incr", "incr", "wrap4", "wrap8", "wrap16", "const", "classic"]))
-                beats = draw(st.integers(2, 8)) if btype != "classic" else 1
-                if btype.startswith("wrap"):
-                    # a wrap burst longer than its wrap length is excluded by construction (known finding
-                    # sram-wrap-overrun, replayed from its witness file)
-                    beats = min(beats, int(btype[4:]))
-                start = draw(st.integers(0, 31))
-                waits = draw(st.sampled_from([0, 0, 1]))
-                for b in range(beats):
-                    if btype == "incr":
-                        adr, cti, bte = (start + b) % 32, 2, 0
-                    elif btype.startswith("wrap"):
-                        n = int(btype[4:])
-                        adr, cti, bte = (start & ~(n - 1)) | ((start + b) & (n - 1)), 2, {4: 1, 8: 2, 16: 3}[n]
-                    elif btype == "const":
-                        adr, cti, bte = start, 1, 0
-                    else:
-                        adr, cti, bte = start, 0, 0
-                    last = b == beats - 1
-                    if last and btype != "classic":
-                        cti = 7
-                    ops.append({"we": we, "adr": adr, "dat": draw(st.integers(0, (1 << dw) - 1)),
-                                "sel": draw(st.sampled_from([(1 << (dw // 8)) - 1, (1 << (dw // 8)) - 1, 0x5, 0x3, 0x8])) & ((1 << (dw // 8)) - 1),
-                                "gap": (draw(st.sampled_from([0, 1, 3])) if b == 0 else (waits if draw(st.integers(0, 3)) == 0 else 0)),
-                                "hold": not last, "cti": cti, "bte": bte, "btype": btype})
-            c["ops"] = ops
+            c["ops"] = _burst_ops(draw, dw, 32)
         else:  # chain
-            which = draw(st.sampled_from(["up_down", "cache_down", "remap_sram", "down_sram_burst"]))
+            which = draw(st.sampled_from(["up_down", "cache_down", "remap_sram", "down_sram_burst", "up_sram_burst"]))
             c.update({"chain": which, "window": 16, "dw_m": 32, "dw_s": 32})
             if which == "up_down":
                 c.update({"dw_m": 16, "dw_mid": 64, "dw_s": 32})
@@ -150,6 +163,12 @@ def st_case(tier):
             elif which == "down_sram_burst":
                 c.update({"dw_m": 64, "dw_s": 32})
             c["ops"] = draw(st_ops(c["dw_m"], c["window"], nmax))
+            if which == "down_sram_burst" and draw(st.booleans()):
+                # bursts through the converter into the burst-capable SRAM (wrapping bursts must reach it as classic cycles)
+                c["ops"] = _burst_ops(draw, 64, 16)
+            if which == "up_sram_burst":
+                c.update({"dw_m": 32, "dw_s": 64, "window": 32})
+                c["ops"] = _burst_ops(draw, 32, 32) if draw(st.booleans()) else draw(st_ops(32, 32, nmax))
         return c
     return case()
 
@@ -215,6 +234,8 @@ def build(case):
         ratio_up = max(dw_s // dw_m, 1)
         ratio_dn = max(dw_m // dw_s, 1)
         s_aw = 10
+        if case.get("tight"):
+            s_aw = max(1, int(math.log2(W * bm // bs)))
         s = wishbone.Interface(data_width=dw_s, adr_width=s_aw, addressing="word")
         m = wishbone.Interface(data_width=dw_m, adr_width=s_aw + int(math.log2(ratio_up)) - int(math.log2(ratio_dn)), addressing="word")
         top.submodules.dut = wishbone.Cache(case["cachesize"], m, s, reverse=case["reverse"])
@@ -279,6 +300,11 @@ def build(case):
             s = wishbone.Interface(data_width=32, adr_width=30, addressing="word")
             top.submodules.a = wishbone.Remapper(m, s, origin=0x10000000, size=0x1000)
             top.submodules.b = wishbone.SRAM(W * 4, init=_words(init, 4), bus=s)
+        elif which == "up_sram_burst":
+            m = wishbone.Interface(data_width=32, adr_width=12, addressing="word", bursting=True)
+            s = wishbone.Interface(data_width=64, adr_width=11, addressing="word", bursting=True)
+            top.submodules.a = wishbone.UpConverter(m, s)
+            top.submodules.b = wishbone.SRAM(W * 4, init=_words(init, 8), bus=s)
         else:
             m = wishbone.Interface(data_width=64, adr_width=11, addressing="word")
             s = wishbone.Interface(data_width=32, adr_width=12, addressing="word", bursting=True)
